@@ -483,6 +483,8 @@ class State:
         s.facts = list(self.facts)
         s.neqs = list(self.neqs)
         s.disj = list(self.disj)
+        s.frames = self.frames  # shared, read-only use
+        s.heap = self.heap
         return s
 
     def bounds(self, lin):
@@ -513,4 +515,10 @@ def conj_of(f):
         return []
     if k == "c" and not f[1]:
         return [Lin.const(-1)]
+    if k == "ne":
+        lo, hi = static_bounds(f[1])
+        if lo is not None and lo >= 0:
+            return [f[1] - 1]
+        if hi is not None and hi <= 0:
+            return [(-f[1]) - 1]
     return None
